@@ -387,9 +387,15 @@ def check_export(run):
         idnt.apply_preprocessing(["compute_tip_position",
                                   "correct_force_offset",
                                   "correct_tip_offset"])
-        idnt.fit_model(model_key="hertz_para",
-                       weight_cp=[1e-6, 5e-7, 0][i % 3],
-                       range_x=[0, 0] if i < 3 else [-1e-6 * i, 1e-6])
+        if i == 1:
+            # a curve that is rated (0) although its fit could not be
+            # performed: it keeps its row (NaN features) next to its rating
+            idnt.fit_model(model_key="hertz_para", range_type="absolute",
+                           range_x=[5e-6, 5.00001e-6])
+        else:
+            idnt.fit_model(model_key="hertz_para",
+                           weight_cp=[1e-6, 5e-7, 0][i % 3],
+                           range_x=[0, 0] if i < 3 else [-1e-6 * i, 1e-6])
         rate = [3, 0, 9, 5, 10, 1, 7, 2][i]
         users[f"c{i}"] = rate
         feats[f"c{i}"] = IndentationRater.compute_features(idnt)
